@@ -26,6 +26,16 @@ Definition cold_value_ok (row : string * bool) : bool :=
 Theorem C13_no_shared_cell_in_pipeline_values : forallb cold_value_ok OpState.table = true.
 Proof. vm_compute. reflexivity. Qed.
 
+(* ---- no state outside the values either: every `static` item of the crate (regenerated list) is one of these - the
+   timer function that a program installs once, and the per-thread registers of the verification hooks (compiled under
+   --cfg rxrust_verif only).  A static that an operator reads and writes is shared by every subscription of the process. ---- *)
+Definition configuration_statics : list string :=
+  ["scheduler.rs:NEW_TIMER_FN"; "scheduler.rs:SPAWNED"; "scheduler.rs:YIELD"; "scheduler.rs:LOCK_GATE"; "scheduler.rs:LOCKS"].
+
+Theorem C13_no_process_wide_state :
+  forallb (fun x => existsb (String.eqb x) configuration_statics) OpState.statics = true.
+Proof. vm_compute. reflexivity. Qed.
+
 (* ---- tie to the source: building a pipeline performs no work.  The table (regenerated on every run) lists every function
    a pipeline is built with - the source constructors of src/observable/*.rs, the default methods of ObservableExt, the
    `new` functions of src/ops and src/observable - with a flag: true when its body only constructs and returns a value, false
@@ -71,6 +81,7 @@ Theorem C13_shared_state_would_break_it :
 Proof. exact IndepLaws.shared_state_breaks_independence. Qed.
 
 Check C13_no_shared_cell_in_pipeline_values : forallb cold_value_ok OpState.table = true.
+Check C13_no_process_wide_state : forallb (fun x => existsb (String.eqb x) configuration_statics) OpState.statics = true.
 Check C13_building_performs_no_work : forallb builds_only Lazy.table = true.
 Print Assumptions C13_building_performs_no_work.
 Check C13_subscription_is_pure : forall h pv s, all_fresh pv = true -> sub_run h pv s = (h, run_cold (map fst pv) s).
@@ -81,6 +92,7 @@ Check C13_nested_subscriptions_agree : forall pv s at_ h, all_fresh pv = true ->
 Check C13_shared_state_would_break_it : exists pv s, sub_runs [] pv s 2 <> repeat (run_cold (map fst pv) s) 2.
 
 Print Assumptions C13_no_shared_cell_in_pipeline_values.
+Print Assumptions C13_no_process_wide_state.
 Print Assumptions C13_subscription_is_pure.
 Print Assumptions C13_successive_subscriptions_agree.
 Print Assumptions C13_nested_subscriptions_agree.
